@@ -128,8 +128,10 @@ class ClientEnd:
     talking to a scripted server-side h2 peer."""
 
     def __init__(self, loop, config=None, codec=None, status_details_codec=None, connect_script=None,
-                 auto_settings=True):
+                 auto_settings=True, tap=False):
         self.loop = loop
+        self.tap = tap
+        self.taps = []           # FrameTap per connection (frames written by grpclib), when tap=True
         kw = {}
         if status_details_codec is not None:
             kw['status_details_codec'] = status_details_codec
@@ -150,6 +152,9 @@ class ClientEnd:
         proto = self.channel._protocol_factory()
         peer = Peer(client_side=False)
         tr = MemTransport(proto, self.loop, on_write=peer.receive)
+        if self.tap:
+            from harness.frames import tap_transport
+            self.taps.append(tap_transport(tr, self.loop.time))
         peer.attach(tr)
         peer.start()
         proto.connection_made(tr)
@@ -174,7 +179,9 @@ class ClientEnd:
 class ServerEnd:
     """A real Server protocol instance on an in-memory transport, talking to a scripted client peer."""
 
-    def __init__(self, loop, services, config=None, codec=None, status_details_codec=None):
+    def __init__(self, loop, services, config=None, codec=None, status_details_codec=None, tap=False):
+        self.tap = tap
+        self.taps = []
         kw = {}
         if status_details_codec is not None:
             kw['status_details_codec'] = status_details_codec
@@ -187,6 +194,9 @@ class ServerEnd:
         proto = self.server._protocol_factory()
         peer = Peer(client_side=True)
         tr = MemTransport(proto, self.loop, on_write=peer.receive)
+        if self.tap:
+            from harness.frames import tap_transport
+            self.taps.append(tap_transport(tr, self.loop.time))
         peer.attach(tr)
         peer.start()
         proto.connection_made(tr)
